@@ -44,6 +44,19 @@ let api c = if c = 2 then 1 else c
 let api_of_aout = function AT -> 0 | AFn | AFc -> 1 | AEc -> 3 | AEd -> 4 | AEo -> 5 | AFuel -> 98
 let set_s s = String.concat "," (List.map aout_s s)
 
+(* Cross-check of extraction: with ORACLE_DUMP=<file> the values the EXTRACTED model computes for a case are
+   appended to that file -- the outcome set (bit mask) of every request of the history threaded through
+   resolve_top with one cache per partition (ListObjects steps: one request per atom of the type), then
+   per partition (sorted) its id, the size and a checksum of its final cache, then the hazard predicate of
+   the first few Check / BatchCheck items -- and bin/coqreplay_c08.py recomputes the same numbers inside
+   Coq with run_history / v2_visited_hazard / reach under vm_compute. *)
+let dump_chan = match Sys.getenv_opt "ORACLE_DUMP" with
+  | Some p when p <> "" -> Some (open_out_gen [Open_append; Open_creat] 0o644 p)
+  | _ -> None
+let aout_bit = function AT -> 1 | AFn -> 2 | AFc -> 4 | AEc -> 8 | AEd -> 16 | AEo -> 32 | AFuel -> 64
+let mask_of s = List.fold_left (fun acc a -> acc lor aout_bit a) 0 s
+let dump_hazards = 6
+
 type item = { w : int; s : int; o : obj; ot : int; rel : n }
 
 let dec_item v =
@@ -114,11 +127,13 @@ let f _id vs =
     let caches : (int * int, (atom * bool) list) Hashtbl.t = Hashtbl.create 8 in
     let getc p = match Hashtbl.find_opt caches p with Some c -> c | None -> [] in
     let a1_tbl : (int * int, (oset * trig)) Hashtbl.t = Hashtbl.create 64 in   (* (step, item index) *)
+    let dump_masks = ref [] in
     List.iteri (fun si st ->
       let run1 ii (it : item) a =
         let p = (it.w, it.s) in
         let (res, c') = rtop p (getc p) a in
         Hashtbl.replace caches p c';
+        if dump_chan <> None then dump_masks := mask_of (fst res) :: !dump_masks;
         if ii >= 0 then Hashtbl.replace a1_tbl (si, ii) res in
       match st with
       | SCheck it -> run1 0 it (it.o, it.rel)
@@ -140,6 +155,23 @@ let f _id vs =
       let (m, _, store, _, _) = penv p in
       List.exists (fun (p', prev) -> p' = p && v2_visited_hazard m store gfuel prev a) (earlier si)
       || List.exists (fun prev -> v2_visited_hazard m store gfuel prev a) (reach m store gfuel a) in
+    (match dump_chan with
+     | Some ch ->
+       let parts = List.sort compare (Hashtbl.fold (fun p c acc -> (p, c) :: acc) caches []) in
+       let cks c = List.fold_left (fun acc (((o : obj), r), b) ->
+         (acc * 31 + int_of_n o.otype * 10007 + int_of_n o.oid * 101 + int_of_n r * 3 + (if b then 1 else 0)) mod 1000003) 0 c in
+       let pnums = List.concat_map (fun ((w, sx), c) -> [w * 100 + sx + 1; List.length c; cks c]) parts in
+       let hz = ref [] and left = ref dump_hazards in
+       List.iteri (fun si st ->
+         let one (it : item) =
+           if !left > 0 then begin
+             decr left;
+             hz := (if hazard (it.w, it.s) si (it.o, it.rel) then 1 else 0) :: !hz
+           end in
+         match st with SCheck it -> one it | SBatch its -> List.iter one its | SList _ -> ()) steps;
+       output_string ch (String.concat " " (_id :: List.map string_of_int (List.rev !dump_masks @ pnums @ List.rev !hz)));
+       output_char ch '\n'; flush ch
+     | None -> ());
     let props = ref [] and diffs = ref [] and knowns = ref [] in
     let prop s = props := s :: !props and diff s = diffs := s :: !diffs and known s = knowns := s :: !knowns in
     let where p ((o : obj), r) = Printf.sprintf "w%d %s#r%d@%s" (fst p) (obj_s o) (int_of_n r) (subj_s (List.nth subjs (snd p))) in
